@@ -41,6 +41,15 @@ def discharge(ob):
         rec["status"] = "vacuous" if r == z3.unsat else "discharged"
         rec["note"] = "cover: path condition " + ("UNSATISFIABLE" if r == z3.unsat else str(r))
         return rec
+    # pass 0: a goal that asks for a WITNESS (positive existential) is not what trigger-based
+    # instantiation is good at; model-based instantiation first, with the full budget
+    if _wants_witness(ob.goal):
+        s = _solver(ob.hyps, ob.goal, True, Z3_MS)
+        r = s.check()
+        if r == z3.unsat:
+            rec.update(status="discharged", backend="z3(mbqi,witness goal)")
+            rec["ms"] = round((time.time() - t0) * 1000, 1)
+            return rec
     # pass 1: E-matching only (decides every obligation of the unchanged tree in milliseconds)
     s = _solver(ob.hyps, ob.goal, False, Z3_MS)
     r = s.check()
@@ -106,6 +115,18 @@ def discharge(ob):
             rec.update(status="undecided", backend=f"z3:unknown({s.reason_unknown()}) cvc5:{r2}")
     rec["ms"] = round((time.time() - t0) * 1000, 1)
     return rec
+
+
+def _wants_witness(g, depth=0):
+    if depth > 4:
+        return False
+    if z3.is_quantifier(g):
+        return g.is_exists()
+    if z3.is_and(g) or z3.is_or(g):
+        return any(_wants_witness(ch, depth + 1) for ch in g.children())
+    if z3.is_implies(g):
+        return _wants_witness(g.arg(1), depth + 1)
+    return False
 
 
 def _cvc5(solver):
